@@ -52,6 +52,25 @@ func VerifHarness_C09_Extractors() {
 	}
 	vsymAssert(err == nil, "sample extractor builds")
 	got, ok := ex.Extract(entry{ts: 1, line: line, set: set})
+	// rate over unwrapped values is their sum per second (the batch aggregator
+	// chosen for it sums): each line contributes its unwrapped value, not 1
+	rateUnwrapped := op == logql.RangeOpRate && withUnwrap
+	if rateUnwrapped && ok && got == 1 {
+		want := vals[vi].num
+		if conv == "bytes" {
+			want = vals[vi].byt
+		} else if conv != "" {
+			want = vals[vi].dur
+		}
+		if !has || (want >= 0 && want != 1) {
+			vsymFinding("F43", true, "rate(... | unwrap v [r]) counts lines: the sample extractor for rate ignores the unwrap expression and contributes 1 per line, while the aggregator chosen for rate-with-unwrap sums the samples and divides by the range, so the result is lines per second instead of the sum of the unwrapped values per second")
+			return
+		}
+	}
+	switch {
+	case rateUnwrapped:
+		op = logql.RangeOpSum // judged like the other unwrapped functions below
+	}
 	switch op {
 	case logql.RangeOpCount, logql.RangeOpRate, logql.RangeOpAbsent:
 		vsymAssert(ok && got == 1, "count/rate/absent: every line contributes 1")
